@@ -18,6 +18,8 @@ trait SigOps {
     fn valid(b: u8, a: char) -> bool;
     fn cmp(x: (u8, char), y: (u8, char)) -> Ordering;
     fn eq(x: (u8, char), y: (u8, char)) -> bool;
+    /// the other comparison the type offers: partial_cmp and the four operators
+    fn partial(x: (u8, char), y: (u8, char)) -> (Option<Ordering>, [bool; 4]);
 }
 macro_rules! sigops {
     ($name:ident, $t:ty) => {
@@ -31,6 +33,10 @@ macro_rules! sigops {
             }
             fn eq(x: (u8, char), y: (u8, char)) -> bool {
                 <$t>::new(x.0, x.1) == <$t>::new(y.0, y.1)
+            }
+            fn partial(x: (u8, char), y: (u8, char)) -> (Option<Ordering>, [bool; 4]) {
+                let (a, b) = (<$t>::new(x.0, x.1), <$t>::new(y.0, y.1));
+                (PartialOrd::partial_cmp(&a, &b), [a < b, a <= b, a > b, a >= b])
             }
         }
     };
@@ -63,6 +69,17 @@ fn cmp(c: usize, x: (u8, char), y: (u8, char)) -> Ordering {
         4 => OQzss::cmp(x, y),
         5 => OBds::cmp(x, y),
         _ => ONavic::cmp(x, y),
+    }
+}
+fn partial(c: usize, x: (u8, char), y: (u8, char)) -> (Option<Ordering>, [bool; 4]) {
+    match c {
+        0 => OGps::partial(x, y),
+        1 => OGlo::partial(x, y),
+        2 => OGal::partial(x, y),
+        3 => OSbas::partial(x, y),
+        4 => OQzss::partial(x, y),
+        5 => OBds::partial(x, y),
+        _ => ONavic::partial(x, y),
     }
 }
 fn eq(c: usize, x: (u8, char), y: (u8, char)) -> bool {
@@ -319,6 +336,22 @@ fn check_order(ctx: &mut Ctx, c: usize, x: (u8, char), y: (u8, char), z: (u8, ch
     if (xy == Ordering::Equal) != eq(c, x, y) || (x == y) != eq(c, x, y) {
         ctx.violation(format!("C18.consistent_with_eq|{}", cn), "C18.consistent_with_eq", format!("{}: cmp({:?},{:?}) = {:?} but == is {}", cn, x, y, xy, eq(c, x, y)), rvv());
     }
+    // one order, not two: partial_cmp and the operators <, <=, >, >= say what cmp says
+    let (pc, ops) = partial(c, x, y);
+    let want = [xy == Ordering::Less, xy != Ordering::Greater, xy == Ordering::Greater, xy != Ordering::Less];
+    if pc != Some(xy) || ops != want {
+        let kind = match (px.is_some(), py.is_some()) {
+            (true, true) => "both_recognised",
+            (false, false) => "both_unrecognised",
+            _ => "one_unrecognised",
+        };
+        ctx.violation(
+            format!("C18.operators_agree_with_cmp|{}|{}", cn, kind),
+            "C18.operators_agree_with_cmp",
+            format!("{}: cmp({:?}, {:?}) = {:?} but partial_cmp = {:?} and [<, <=, >, >=] = {:?}", cn, x, y, xy, pc, ops),
+            rvv(),
+        );
+    }
     if cmp(c, x, x) != Ordering::Equal {
         ctx.violation(format!("C18.reflexive|{}", cn), "C18.reflexive", format!("{}: cmp({:?},{:?}) != Equal", cn, x, x), rvv());
     }
@@ -506,7 +539,7 @@ pub fn run(p: &Params) -> Outcome {
     }
     Outcome {
         ctx: total,
-        rule: "exhaustive descriptor sweep through is_valid and through the encoder of a one-cell MSM1 message per constellation, all 32 mask positions through the decoder, all pairs/triples of recognised descriptors and sampled mixed triples through Ord::cmp; oracle: SigRef tables (RTCM 10403.3 via RTKLIB), inverse bijection onto a subset of 2..=32, valid iff in table, order by position with unrecognised last, total order consistent with ==".into(),
+        rule: "exhaustive descriptor sweep through is_valid and through the encoder of a one-cell MSM1 message per constellation, all 32 mask positions through the decoder, all pairs/triples of recognised descriptors and sampled mixed triples through Ord::cmp, PartialOrd::partial_cmp and the operators < <= > >=; oracle: SigRef tables (RTCM 10403.3 via RTKLIB), inverse bijection onto a subset of 2..=32, valid iff in table, order by position with unrecognised last, total order consistent with == and the same through cmp, partial_cmp and the operators".into(),
         exhaustive: false,
         extra: json!({}),
     }
